@@ -35,6 +35,12 @@ func c06Sources() []srcHello {
 				// an empty-but-present extensions block (all extensions of the spec vanished) has no
 				// counterpart in a spec: not a hello "utls can represent", skipped
 				if h, err := wire.CheckAll(msg); err == nil && !(h.HasExts && len(h.Exts) == 0) {
+					// a non-empty renegotiated_connection is the previous handshake's verify_data (a
+					// renegotiation hello): the Fingerprinter documents that it ignores this body, so
+					// such a hello is not a first-flight shape to reproduce
+					if e := h.Find(0xff01); e != nil && len(e.Body) > 1 {
+						return
+					}
 					c06Src = append(c06Src, srcHello{name, msg, cfg.ServerName})
 				}
 			}
